@@ -46,10 +46,38 @@ def run(tier, rng, C):
         cases.append({'id': cid, 'line': V.stack_line(cid, 'value2', layers), 'show': V.stack_show(layers),
                       'nontrivial': True, 'clean': clean})
 
+    # strings that mix inventory-query brackets $[ ... ] (plain text for this implementation), braces and
+    # resolvable references: every reference is rendered wherever it stands
+    pcs = ['$[', ']', ' ${a} ', '${b:c}', 'txt ', '$[x]', '\\$[', '{', '}', ' if x == ${a}', '$', '${a${d}}']
+    for i in range(120 if tier == 'quick' else 4000):
+        s = ''.join(rng.choice(pcs) for _ in range(rng.randint(2, 7)))
+        if i % 3 == 0:
+            s = '$[ ' + s + ' ${a} ]'
+        holder = rng.choice([S(s), ('l', [S(s), S('${a}')]), M(('q', S(s)))])
+        layers = [('m', [(S('a'), S('A')), (S('b'), M(('c', I(3)))), (S('d'), S('')), (S('aA'), S('nested')), (S('s'), holder)])]
+        cid = C.case_id('q', i)
+        cases.append({'id': cid, 'line': V.stack_line(cid, 'value2', layers), 'show': V.stack_show(layers), 'nontrivial': True, 'clean': True,
+                      'noref': True})
+
+    def unresolved(v):
+        if v is None or v is True or v is False:
+            return False
+        if v[0] == 'lit':
+            return '${a' in v[1] or '${b' in v[1]
+        if v[0] == 'seq':
+            return any(unresolved(x) for x in v[1])
+        if v[0] == 'map':
+            return any(unresolved(x) for _, x, _ in v[1])
+        return False
+
     def oracle(cases, mobs, iobs):
         fails = []
         for c in cases:
             o = iobs.get(c['id'], '')
+            if c.get('noref') and obs_kind(o) == 'ok' and unresolved(C.parse_canon(o[3:].split(' || ', 1)[0].split(' '))[0]):
+                fails.append({'key': 'reference-left-unresolved', 'severity': 'fail', 'show': c['show'], 'lines': [c['line']],
+                              'reason': 'an unescaped reference is still present in the rendered text', 'impl': C.describe(o), 'size': len(c['line'])})
+                continue
             if obs_kind(o) != 'ok':
                 continue
             first, second = o[3:].split(' || ', 1)
@@ -62,7 +90,7 @@ def run(tier, rng, C):
                               'reason': prob, 'impl': C.describe(o), 'size': len(c['line'])})
         return fails
     rule = ('%d stacks (reference-bearing random stacks, acyclic reference graphs, plain marked stacks) rendered and then '
-            'rendered again; oracle on the implementation output: no String / ValueList anywhere, no key with a leading marker '
+            'rendered again, plus strings mixing $[ ... ] brackets, braces and resolvable references; oracle on the implementation output: no String / ValueList anywhere, no key with a leading marker '
             '(clean-key inputs), second render identical; non-trivial = all (counted after de-duplication); successful renders: see histogram' % n)
     res = C.standard_run(cases, rule, key_fn=lambda c, m, i, r: 'model-impl-differ', extra_oracle=oracle)
     return res
